@@ -1,5 +1,6 @@
 import LsModel.Txn
 import LsModel.CleanerOracle
+import LsModel.SyncLoop
 /-
   State the driver threads from one protocol line to the next. One field per stateful component;
   stateless operations ignore it.
@@ -11,9 +12,15 @@ structure Inst where
   cfg : Txn.Cfg
   env : Txn.Env
 
+structure LoopInst where
+  cfg : SyncLoop.LoopCfg
+  st : SyncLoop.St
+
 structure DrvState where
   cleaner : Ls.Cleaner.Drv := {}
   envs : List (String × Inst) := []
+  loops : List (String × LoopInst) := []
+  bucket : SyncLoop.Bucket := []
 
 /-- a stateful handler: `none` = not my op / malformed arguments -/
 abbrev HandlerS := String → List String → DrvState → Option (DrvState × String)
@@ -21,5 +28,9 @@ abbrev HandlerS := String → List String → DrvState → Option (DrvState × S
 def DrvState.getEnv (s : DrvState) (id : String) : Option Inst := (s.envs.find? (·.1 == id)).map (·.2)
 def DrvState.setEnv (s : DrvState) (id : String) (i : Inst) : DrvState :=
   { s with envs := (id, i) :: s.envs.filter (·.1 != id) }
+
+def DrvState.getLoop (s : DrvState) (id : String) : Option LoopInst := (s.loops.find? (·.1 == id)).map (·.2)
+def DrvState.setLoop (s : DrvState) (id : String) (i : LoopInst) : DrvState :=
+  { s with loops := (id, i) :: s.loops.filter (·.1 != id) }
 
 end Ls.Drv
